@@ -1578,14 +1578,42 @@ pub fn info_roundtrip(doc: &str) -> Outcome {
 // ------------------------------------------------------------------------------------------------
 // C02: ill-formed input is never reported as a completely parsed document (error, or unconsumed input the caller can test)
 
-pub const ILL_FORMED: [&str; 43] = [
+pub const ILL_FORMED: [&str; 55] = [
     "<a></b>", "<a><b></a></b>", "<a>", "<a><b></b>", "</a>", "<a/><b/>", "<a/>x", "x<a/>", "", "   ",
     "<a b='1' b='2'/>", "<a b=1/>", "<a b/>", "<a b='<'/>", "<a b='&'/>", "<a b='&#0;'/>", "<a b='&#xD800;'/>", "<a b='&#xFFFE;'/>", "<a b='1'c='2'/>",
     "<a>&</a>", "<a>&#0;</a>", "<a>&#x110000;</a>", "<a>&nope;</a>", "<a>]]></a>", "<a><!-- -- --></a>", "<a><!--x---></a>", "<a><![CDATA[x]]</a>",
     "<a><?xml version='1.0'?></a>", "<a><?XML x?></a>", " <?xml version='1.0'?><a/>", "<?xml version='1.0'?><?xml version='1.0'?><a/>", "<?xml?><a/>", "<?xml version='2'x?><a/>",
     "<1a/>", "<a:b:c/>", "<-a/>", "<a\u{0}/>", "<a>\u{1}</a>", "<a>\u{ffff}</a>",
     "<!DOCTYPE a><!DOCTYPE a><a/>", "<a/><!DOCTYPE a>", "<.a/>", "<!DOCTYPE a [<!ELEMENT a (b,,c)>]><a/>",
+    // names: PI targets and references (a declared entity / notation name: below)
+    "<a><?0 d?></a>", "<a><?-p?></a>", "<a><? d?></a>", "<a>&0;</a>", "<a>&;</a>", "<a b='&-x;'/>",
+    // ill-formed only through the replacement text of an entity (recorded open finding: replacement text is never checked)
+    "<!DOCTYPE r [<!ENTITY e \"<\">]><r a=\"&e;\"/>", "<!DOCTYPE r [<!ENTITY e \"<x>\">]><r>&e;</r>",
+    "<!DOCTYPE r [<!ENTITY e \"&nope;\">]><r>&e;</r>", "<!DOCTYPE r [<!ENTITY e \"&#0;\">]><r/>",
+    // declared entity / notation names starting with a digit (recorded open finding: pinned by the test-suite)
+    "<!DOCTYPE r [<!ENTITY 1 \"v\">]><r/>", "<!DOCTYPE r [<!NOTATION 1 SYSTEM \"n\">]><r/>",
 ];
+
+pub const ILL_FORMED_MUTANTS: &str = include_str!("../data/ill_formed_mutants.txt");
+
+pub fn unescape_line(line: &str) -> String {
+    let mut out = String::new();
+    let mut it = line.chars();
+    while let Some(c) = it.next() {
+        if c == '\\' {
+            match it.next() {
+                Some('n') => out.push('\n'),
+                Some('r') => out.push('\r'),
+                Some('t') => out.push('\t'),
+                Some(o) => out.push(o),
+                None => {}
+            }
+        } else {
+            out.push(c);
+        }
+    }
+    out
+}
 
 pub fn info_reject(doc: &str) -> Outcome {
     let observed = guard(|| match xml_parser::document(doc) {
